@@ -69,17 +69,21 @@ def reset_globals():
 LAST_KIND_INPUT: Dict[str, Any] = {}
 
 
-def translate(backend: str, a: ast.AST, want_ast: bool = False) -> Tuple[str, Any]:
+def translate(backend: str, a: ast.AST, want_ast: bool = False, write_again: bool = False) -> Tuple[str, Any]:
     """Run the whole repository pipeline on a query AST.  Returns ("ok", {files, info}) or
-    ("error", exception class name, message)."""
+    ("error", exception class name, message).  write_again: the transformed AST is rendered a second time into another
+    directory (a package written twice, or a retry after a late failure); the second rendering's slots are returned as
+    "slots_again" (or "error_again")."""
     exe = executors()[backend]()
     captured: Dict[str, Any] = {}
+    again: Dict[str, Any] = {}
+    target = [captured]
     orig_copy = exe._copy_template_file
 
     def _copy(j2_env, info_dict, template_file, final_dir):
         # harness-side observation of the dictionary handed to jinja2 (no change to /repo)
-        if not captured:
-            captured.update({k: (list(v) if isinstance(v, (list, tuple)) else v) for k, v in info_dict.items()})
+        if not target[0]:
+            target[0].update({k: (list(v) if isinstance(v, (list, tuple)) else v) for k, v in info_dict.items()})
         return orig_copy(j2_env, info_dict, template_file, final_dir)
 
     exe._copy_template_file = _copy  # type: ignore
@@ -103,14 +107,20 @@ def translate(backend: str, a: ast.AST, want_ast: bool = False) -> Tuple[str, An
         for f in sorted(out.iterdir()):
             files[f.name] = {"text": f.read_text(), "mode": f.stat().st_mode & 0o777}
         rr = info.result_rep
-        return (
-            "ok",
-            {
-                "files": files,
-                "main_script": info.main_script,
-                "all_filenames": list(info.all_filenames),
-                "treename": getattr(rr, "treename", None),
-                "filename": getattr(rr, "filename", None),
-                "slots": captured,
-            },
-        )
+        res = {
+            "files": files,
+            "main_script": info.main_script,
+            "all_filenames": list(info.all_filenames),
+            "treename": getattr(rr, "treename", None),
+            "filename": getattr(rr, "filename", None),
+            "slots": captured,
+        }
+        if write_again:
+            target[0] = again
+            with tempfile.TemporaryDirectory(prefix="fv-pkg2-") as d2:
+                try:
+                    exe.write_cpp_files(a2, Path(d2))
+                    res["slots_again"] = again
+                except Exception as e:  # noqa: BLE001
+                    res["error_again"] = f"{type(e).__name__}: {str(e)[:200]}"
+        return ("ok", res)
